@@ -21,6 +21,10 @@ pub enum Fam {
     CExp(f64),
     /// 1 + x + i x^k (complex polynomial whose imaginary part is the harder one)
     CPoly(u32),
+    /// 1 + i sin(b x): the real part is constant (settled at the first rule), all the work is in the imaginary part
+    CSplit(f64),
+    /// i (cos(b x) + 0.5 sin(b x)): purely imaginary values
+    ITrig(f64),
 }
 impl Fam {
     fn eval(self, x: f64) -> C {
@@ -30,6 +34,8 @@ impl Fam {
             Fam::Trig(b) => C::new((b * x).cos() + 0.5 * (b * x).sin(), 0.0),
             Fam::CExp(b) => C::new((b * x).cos(), (b * x).sin()),
             Fam::CPoly(k) => C::new(1.0 + x, x.powi(k as i32)),
+            Fam::CSplit(b) => C::new(1.0, (b * x).sin()),
+            Fam::ITrig(b) => C::new(0.0, (b * x).cos() + 0.5 * (b * x).sin()),
         }
     }
     fn antiderivative(self, x: f64) -> C {
@@ -48,6 +54,8 @@ impl Fam {
             Fam::Trig(b) => C::new((b * x).sin() / b - 0.5 * (b * x).cos() / b, 0.0),
             Fam::CExp(b) => C::new((b * x).sin() / b, -(b * x).cos() / b),
             Fam::CPoly(k) => C::new(x + 0.5 * x * x, x.powi(k as i32 + 1) / (k as f64 + 1.0)),
+            Fam::CSplit(b) => C::new(x, -(b * x).cos() / b),
+            Fam::ITrig(b) => C::new(0.0, (b * x).sin() / b - 0.5 * (b * x).cos() / b),
         }
     }
     /// exponential type (growth rate of derivatives): |f^(m)| <~ type^m max|f|
@@ -58,7 +66,7 @@ impl Fam {
         match self {
             Fam::Mono(k) => k as f64 / far,
             Fam::PolyExp(k, a) => a.abs() + k as f64 / far,
-            Fam::Trig(b) | Fam::CExp(b) => b.abs(),
+            Fam::Trig(b) | Fam::CExp(b) | Fam::CSplit(b) | Fam::ITrig(b) => b.abs(),
             Fam::CPoly(k) => k as f64 / far,
         }
     }
@@ -70,7 +78,7 @@ impl Fam {
         }
     }
     fn is_complex(self) -> bool {
-        matches!(self, Fam::CExp(_) | Fam::CPoly(_))
+        matches!(self, Fam::CExp(_) | Fam::CPoly(_) | Fam::CSplit(_) | Fam::ITrig(_))
     }
 }
 fn families(t: Tier) -> Vec<Fam> {
@@ -95,6 +103,10 @@ fn families(t: Tier) -> Vec<Fam> {
     for k in [2u32, 4, 5] {
         v.push(Fam::CPoly(k));
     }
+    for b in [2.0, 5.0] {
+        v.push(Fam::CSplit(b));
+        v.push(Fam::ITrig(b));
+    }
     v
 }
 // (0.25 with length 0.5 and 2.0 with length 4 put an end point exactly at 0)
@@ -109,6 +121,10 @@ pub struct IntPt {
     pub centre: f64,
     pub length: f64,
     pub tol: f64,
+    /// max|f| on the interval (default 1): the tolerance is absolute, so a large integrand on a short interval asks
+    /// for many digits RELATIVE to the integral - close to, but above, what the rounding of the sums allows
+    #[serde(default)]
+    pub amp: Option<f64>,
 }
 pub struct Interval;
 struct Run {
@@ -174,10 +190,10 @@ impl Check for Interval {
         "finite-interval"
     }
     fn rule(&self) -> String {
-        "tanh-sinh, Gauss-Legendre and adaptive Simpson x integrand family (monomials of every degree up to 21, x^k e^{ax}, trigonometric mixtures, complex e^{ibx} and complex polynomials 1 + x + i x^k; all normalised to max|f| <= 1, closed-form integrals) x centre x length x tolerance; the integrand closure records every abscissa; signature = (routine, family class, outcome, evaluation-count class)".into()
+        "tanh-sinh, Gauss-Legendre and adaptive Simpson x integrand family (monomials of every degree up to 21, x^k e^{ax}, trigonometric mixtures, complex e^{ibx}, complex polynomials 1 + x + i x^k, 1 + i sin(bx) (real part settled at once) and purely imaginary trigonometric values; all normalised to max|f| <= 1, closed-form integrals) x centre x length x tolerance; the integrand closure records every abscissa; signature = (routine, family class, outcome, evaluation-count class)".into()
     }
     fn axes(&self, t: Tier) -> Value {
-        json!({"routines": ROUTINES, "centres": CENTRES, "lengths": LENGTHS, "tol": t.pick(vec![1e-3, 1e-7, 1e-11], vec![1e-3, 1e-5, 1e-7, 1e-9, 1e-11]), "families": format!("{:?}", families(t))})
+        json!({"routines": ROUTINES, "centres": CENTRES, "lengths": LENGTHS, "tol": t.pick(vec![1e-3, 1e-7, 1e-9, 1e-11], vec![1e-3, 1e-5, 1e-7, 1e-9, 1e-11]), "families": format!("{:?}", families(t))})
     }
     fn points(&self, t: Tier) -> Vec<IntPt> {
         let mut v = vec![];
@@ -185,8 +201,11 @@ impl Check for Interval {
             for fam in families(t) {
                 for &centre in &CENTRES {
                     for &length in &LENGTHS {
-                        for &tol in &t.pick(vec![1e-3, 1e-7, 1e-11], vec![1e-3, 1e-5, 1e-7, 1e-9, 1e-11]) {
-                            v.push(IntPt { routine, fam, centre, length, tol });
+                        for &tol in &t.pick(vec![1e-3, 1e-7, 1e-9, 1e-11], vec![1e-3, 1e-5, 1e-7, 1e-9, 1e-11]) {
+                            v.push(IntPt { routine, fam, centre, length, tol, amp: None });
+                            if length <= 0.5 && tol <= 1e-7 {
+                                v.push(IntPt { routine, fam, centre, length, tol, amp: Some(100.0) });
+                            }
                         }
                     }
                 }
@@ -197,7 +216,8 @@ impl Check for Interval {
     fn run(&self, p: &IntPt) -> Outcome {
         let mut o = Outcome::new();
         let (lo, hi) = (p.centre - 0.5 * p.length, p.centre + 0.5 * p.length);
-        let scale = max_abs(p.fam, lo, hi);
+        let amp = p.amp.unwrap_or(1.0);
+        let scale = max_abs(p.fam, lo, hi) / amp;
         let exact = (p.fam.antiderivative(hi) - p.fam.antiderivative(lo)) / scale;
         // conditioning of the closed form itself (difference of antiderivative values)
         let exact_floor = 64.0 * EPS * (p.fam.antiderivative(hi).norm() + p.fam.antiderivative(lo).norm()) / scale;
@@ -210,10 +230,11 @@ impl Check for Interval {
         let tau_l = p.fam.exp_type(lo, hi) * 0.5 * p.length;
         // reliable classes: where the routine must answer Ok
         let reliable = match p.routine {
-            0 => tau_l <= 4.0 && p.tol >= 1e-9,
+            // (down to the tightest tolerance of the property where the integrand is nearly flat on the interval)
+            0 => tau_l <= 4.0 && (p.tol >= 1e-9 || tau_l <= 1.0),
             1 => tau_l <= 2.0,
             _ => p.fam.degree().map_or(false, |k| k <= 5),
-        } && p.tol <= 0.01 * p.length;
+        } && p.tol <= 0.01 * p.length * amp;
         let class = match &out.res {
             Err(m) if m == vcore::BUDGET => {
                 o.viol(&subj, "terminates", format!("{}: more than 2e6 evaluations", ctx()));
@@ -234,7 +255,7 @@ impl Check for Interval {
                 // hard bound where it is claimed; for Simpson only on polynomials of degree <= 5
                 // a tolerance that is not small against the trivial bound length * max|f| of the integral itself is
                 // outside every reliable class: the first rules then "agree" within it whatever the integrand
-                let claimed = p.tol <= 0.01 * p.length
+                let claimed = p.tol <= 0.01 * p.length * amp
                     && match p.routine {
                         2 => p.fam.degree().map_or(false, |k| k <= 5),
                         // the estimators compare consecutive rules / levels: an integrand whose type x half-length is
@@ -246,7 +267,7 @@ impl Check for Interval {
                 // (adaptive Simpson on its exact class, polynomials of degree <= 5: the panel tolerances add up to the
                 // tolerance, so the multiple is 1 - observed at most 0.67; a multiple of 4 hid a child panel that inherits
                 // its parent's tolerance)
-                let bound = if p.routine == 0 && p.tol < 1e-8 { 4.0 * p.tol.sqrt() } else if p.routine == 2 { p.tol } else { 4.0 * p.tol } + 64.0 * EPS * p.length + exact_floor;
+                let bound = if p.routine == 0 && p.tol < 1e-8 { 4.0 * p.tol.sqrt() } else if p.routine == 2 { p.tol } else { 4.0 * p.tol } + 64.0 * EPS * p.length * amp + exact_floor;
                 o.metric(&format!("{}-error/bound", ROUTINES[p.routine]), if claimed { err / bound } else { 0.0 });
                 if claimed && !(err <= bound) {
                     o.viol(&subj, "ok-result-within-tolerance", format!("{}: got {} exact {} (error {:e}, bound {:e})", ctx(), v, exact, err, bound));
@@ -271,6 +292,8 @@ impl Check for Interval {
             Fam::Trig(_) => "trig",
             Fam::CExp(_) => "complex",
             Fam::CPoly(_) => "complex-poly<=5",
+            Fam::CSplit(_) => "complex-constant-real-part",
+            Fam::ITrig(_) => "purely-imaginary",
         };
         o.sig = format!("{}|{}|{}|{}|reliable:{}", ROUTINES[p.routine], famc, class, match out.asked.len() { 0..=20 => "<=20", 21..=100 => "<=100", 101..=1000 => "<=1000", _ => ">1000" }, reliable);
         o
